@@ -272,15 +272,81 @@ def expected_regs(d, acc):
             for bit, i in ((1, 0), (2, 1), (4, 2)):
                 if ifm["shape"][i] != f2["shape"][i]:
                     bc |= bit
-            exp["IFM2_BROADCAST"] = bc
-            masks["IFM2_BROADCAST"] = 0x87
+            exp["IFM2_BROADCAST"] = bc | (0x40 if d.get("reversed") else 0)
+            masks["IFM2_BROADCAST"] = 0xC7
         else:
-            exp["IFM2_BROADCAST"] = 0x80
-            masks["IFM2_BROADCAST"] = 0x80
+            exp["IFM2_BROADCAST"] = 0x80 | (0x40 if d.get("reversed") else 0)
+            masks["IFM2_BROADCAST"] = 0xC0
         p2 = (1 if apigen.DT_SIGNED[f2["dt"]] else 0) | ({8: 0, 16: 1, 32: 2}[apigen.DT_BITS[f2["dt"]]] << 2) | ((1 << 6) if f2["layout"] == "NHCWB16" else 0)
         exp["IFM2_PRECISION"] = p2
         masks["IFM2_PRECISION"] = 0x4F
     return exp, masks
+
+
+def ew_value_violation(d, it, wl, acc, seed):
+    """Semantic half of C06 for ADD / SUB / MUL on 8- and 16-bit maps: the registers of the operation - operand scaling mode, OPA /
+    OPB / OFM scales, operand order, zero points, clamp - are executed by the datapath peer on random operand bytes and the result is
+    compared with the operation as it was given (real-valued operands, rounded to the output quantisation), within one step (16
+    bit: plus the amplification of the 15-bit operand alignment).  -> None | dict"""
+    from .npu import arith
+
+    if d["t"] != "ew" or d.get("sub") not in ("ADD", "SUB", "MUL") or d.get("ifm2") is None:
+        return None
+    fa, fb, fo = d["ifm"], d["ifm2"], d["ofm"]
+    if any(f.get("q") is None for f in (fa, fb, fo)) or any(apigen.DT_BITS[f["dt"]] not in (8, 16) for f in (fa, fb, fo)):
+        return None
+    if (d.get("act") or {}).get("type", "NONE") != "NONE" or it.uses_lut or it.act in (3, 4):
+        return None
+    ext = apigen.extents(wl)
+    if max(ext.values()) > (1 << 24):
+        return None
+    rs = np.random.RandomState(seed & 0x7FFFFFFF)
+    regions = {}
+    vm = arith.VMem(regions)
+    for reg in (0, 1, 2):
+        regions[reg] = ("r%d" % reg, 0, ext[reg], 0)
+        vm.add("r%d" % reg, rs.randint(0, 256, size=ext[reg], dtype=np.uint8))
+    vm.regions = regions
+    shb = HW.ACCEL[acc]["shram_bytes"]
+    regions[HW.SHRAM_REGION] = ("shram", 0, shb, 0)
+    vm.add("shram", rs.randint(0, 256, size=shb, dtype=np.uint8))
+    dp = arith.Datapath(acc, vm)
+    try:
+        y = np.asarray(dp.elementwise(it), np.int64)
+        box = (0, it.oh, 0, it.ow, 0, it.oc)
+        a = vm.read_elems(it.ifm, box).astype(np.float64)
+        if d.get("scalar") is not None:
+            rb = np.full(a.shape, float(d["scalar"]))
+        else:
+            h = 1 if it.bcast & 1 else it.oh
+            w = 1 if it.bcast & 2 else it.ow
+            c = 1 if it.bcast & 4 else it.oc
+            rb = (np.broadcast_to(vm.read_elems(it.ifm2, (0, h, 0, w, 0, c)), a.shape).astype(np.float64) - fb["q"][1]) * float(np.float32(fb["q"][0]))
+    except arith.NotModelled:
+        return None
+    ra = (a - fa["q"][1]) * float(np.float32(fa["q"][0]))
+    first, second = (rb, ra) if d.get("reversed") else (ra, rb)
+    real = first + second if d["sub"] == "ADD" else (first - second if d["sub"] == "SUB" else first * second)
+    so, zo = float(np.float32(fo["q"][0])), fo["q"][1]
+    lo, hi = apigen.DT_RANGE[fo["dt"]]
+    act = d.get("act") or {}
+    if act.get("min") is not None:
+        lo = max(lo, int(np.floor(act["min"] / so + 0.5)) + zo)
+    if act.get("max") is not None:
+        hi = min(hi, int(np.floor(act["max"] / so + 0.5)) + zo)
+    ref = np.clip(np.floor(real / so + 0.5) + zo, lo, hi)
+    tol = 1.0
+    if apigen.DT_BITS[fa["dt"]] == 16 and d["sub"] != "MUL":
+        tol += np.ceil(2.0 * max(fa["q"][0], fb["q"][0]) / so)
+    diff = np.abs(y - ref)
+    # results far outside the output type (a product rescaled by a factor above 1, operands orders of magnitude coarser than the
+    # output) saturate somewhere inside the scaling arithmetic; where exactly is not part of what the operation specifies
+    diff = np.where(np.abs(real / so) < float(1 << 20), diff, 0)
+    if diff.max() > tol:
+        i = int(np.argmax(diff))
+        return dict(max_abs_diff=float(diff.max()), tolerance=float(tol), got=int(y.ravel()[i]), ref=float(ref.ravel()[i]), n_diff=int((diff > tol).sum()), n=int(diff.size),
+                    scale_mode=int(it.ifm_scale_mode), reversed=bool(d.get("reversed")))
+    return False
 
 
 def alignment_violations(it, acc):
@@ -387,6 +453,7 @@ class C06(ApiCheck):
         if len(stops) != 1 or prog[-1] is not stops[0] or stops[0].n != 0xFFFF or info["trailing_sets"]:
             V("stop_command", n_stops=len(stops))
         elided = 0
+        ew_checked = 0
         for i, (d, it) in enumerate(zip(wl["ops"], items)):
             kind = kinds[i]
             want_kind = {"dma": "DMA", "conv": "CONV", "dw": "DEPTHWISE", "pool": "POOL", "ew": "ELEMENTWISE"}[d["t"]]
@@ -418,6 +485,12 @@ class C06(ApiCheck):
                         continue
                     if regs.get(name) != sit.regs.get(name):
                         V("elision_changes_register", index=i, reg=name, got=str(regs.get(name)), solo=str(sit.regs.get(name)), kind=kind)
+            # (a') what the registers compute is the operation that was given (elementwise ADD / SUB / MUL)
+            ev = ew_value_violation(d, it, wl, acc, seeds.derive(desc.get("seed", 0) if isinstance(desc, dict) else 0, "ewval", i)) if d["t"] == "ew" else None
+            if ev is not None:
+                ew_checked += 1
+                if ev:
+                    V("elementwise_result_differs", index=i, kind=kind, **ev)
             # (c) alignment
             for msg in alignment_violations(it, acc):
                 V("alignment", index=i, msg=msg, kind=kind)
@@ -431,6 +504,7 @@ class C06(ApiCheck):
                 V("wait_before_sets", index=i, kind=kind)
         out["counters"]["registers_elided"] = elided
         out["counters"]["ops_checked"] = len(items)
+        out["counters"]["elementwise_results_checked"] = ew_checked
         out["counters"]["probe"] = dict(some_register_elided=int(elided > 0), high_address=int(any(d["t"] == "dma" and d["src"][1] >= 1 << 32 for d in wl["ops"])))
         out["outcome"] = "generated"
         out["sample"] = dict(acc=wl["acc"], ops=kinds, words=len(g["words"]), registers_elided=elided)
